@@ -12,6 +12,8 @@ package main
 //	hup       a new version of the subnet file exists; SIGHUP
 //	hupgen    the same, and the ClientConf generation goes up by one (the new file version contains
 //	          all generations up to the new one, the old one does not contain the new generation)
+//	hupgenonly  the generation goes up by one and the new file version contains ONLY the new generation
+//	hupretire   no new generation, but the new file version contains only the newest one (older retired)
 //	hup2      two new versions and two SIGHUPs back to back
 //	feed      the reload in progress (if any) reads the version that was newest when the harness
 //	          attached to it, and completes
@@ -53,7 +55,7 @@ import (
 
 const c13pPatience = 20 * time.Second
 
-var c13pKinds = []string{"hup", "hupgen", "hup2", "feed", "feedbad", "feedempty", "req-old", "req-cur", "req-v4", "req-v6"}
+var c13pKinds = []string{"hup", "hupgen", "hupgenonly", "hupretire", "hup2", "feed", "feedbad", "feedempty", "req-old", "req-cur", "req-v4", "req-v6"}
 
 type c13pCase struct {
 	Steps []string `json:"steps"` // the whole history since this sub-check took over the registrar
@@ -64,7 +66,10 @@ type c13pDrv struct {
 	fifo string
 
 	newest   int64            // newest file version that exists
-	genOf    map[int64]uint32 // generations contained in a version
+	genOf    map[int64]uint32 // newest generation contained in a version
+	genMin   map[int64]uint32 // oldest generation contained in a version
+	curMin   uint32           // oldest generation in the newest version
+	base     uint32           // generation in force when this sub-check took over
 	genDisk  uint32           // generation of the ClientConf on disk
 	w        *os.File         // write end while attached to a reload in progress
 	obs      int64            // version that was newest when the harness attached
@@ -82,7 +87,16 @@ func (d *c13pDrv) gen(v int64) uint32 {
 	if g, ok := d.genOf[v]; ok {
 		return g
 	}
-	return 1
+	return d.base
+}
+
+func (d *c13pDrv) min(v int64) uint32 {
+	d.mu.Lock()
+	defer d.mu.Unlock()
+	if g, ok := d.genMin[v]; ok {
+		return g
+	}
+	return d.base
 }
 
 // probe attaches to a reload that waits at the pipe. Non-blocking.
@@ -219,7 +233,7 @@ func (d *c13pDrv) deliver(w *os.File, content []byte) string {
 	return d.readerGone()
 }
 
-func (d *c13pDrv) hup(bump bool) string {
+func (d *c13pDrv) hup(bump, only bool) string {
 	d.newest = d.s.seq.Add(1)
 	g := d.genDisk
 	if bump {
@@ -228,11 +242,20 @@ func (d *c13pDrv) hup(bump bool) string {
 		if err := c13hWrite(d.s.ccPath, cc); err != nil {
 			return err.Error()
 		}
+		d.s.cc = cc
+		d.s.curGen.Store(g)
 		d.genDisk = g
 		d.classes["generation-bump"] = true
 	}
+	if only {
+		if d.curMin < g {
+			d.classes["generations-retired"] = true
+		}
+		d.curMin = g
+	}
 	d.mu.Lock()
 	d.genOf[d.newest] = g
+	d.genMin[d.newest] = d.curMin
 	d.mu.Unlock()
 	if d.w != nil {
 		d.classes["sighup-while-reloading"] = true
@@ -298,7 +321,7 @@ func (d *c13pDrv) feed(bad bool) (*c13hViol, string) {
 	}
 	w, v := d.w, d.obs
 	d.w = nil
-	content := c13hSubnetsG(v, d.gen(v))
+	content := c13hSubnetsR(v, d.min(v), d.gen(v))
 	nErr := d.s.logs.count("failed to reload phantom subnets")
 	if bad {
 		content = []byte("[Networks\n  this is = = not toml ]]\n")
@@ -317,34 +340,75 @@ func (d *c13pDrv) feed(bad bool) (*c13hViol, string) {
 		for dl := time.Now().Add(c13hLogWait); d.s.logs.count("failed to reload phantom subnets") == nErr && time.Now().Before(dl); {
 			time.Sleep(time.Millisecond)
 		}
-	} else if v > d.lo.Load() || d.s.mayEmpty.Load() {
-		// the version that was read must be served now (eventually)
-		start := time.Now()
-		for d.lo.Load() < v || d.s.mayEmpty.Load() {
-			lo0 := d.lo.Load()
-			set, key, msg := d.s.registerGen("dual", 1)
-			if key != "" {
-				return d.s.judge("after a reload read file version "+fmt.Sprint(v), key, msg)
-			}
-			if set != c13hRefused {
-				if set < lo0 || set > d.hi.Load() {
-					return &c13hViol{"sighup:stale-set", fmt.Sprintf("after a reload read file version %d a registration was answered from version %d (version %d had already been served)", v, set, lo0)}, ""
-				}
-				d.raiseLo(set)
-				if set >= v {
-					d.s.mayEmpty.Store(false) // a valid version is served again
-				}
-			}
-			if d.lo.Load() >= v && !d.s.mayEmpty.Load() {
-				break
-			}
-			if time.Since(start) > c13pPatience {
-				return &c13hViol{"sighup:reload-never-completed", fmt.Sprintf("a reload read the valid file version %d completely, but %v later registrations are still answered from version %d (last answer: set %d, where %d means refused with HTTP 500). Registrar log tail: %q", v, c13pPatience, d.lo.Load(), set, c13hRefused, d.s.logs.tail(400))}, ""
-			}
-			time.Sleep(500 * time.Microsecond)
+	} else {
+		if d.min(v) > 1 {
+			// generation-1 clients are answered from this version only once the ClientConf that goes
+			// with it has been republished (see mayLag)
+			d.s.mayLag.Store(true)
+		}
+		if v > d.lo.Load() || d.s.mayEmpty.Load() || d.s.mayLag.Load() {
+			return d.served(v)
 		}
 	}
 	return nil, ""
+}
+
+// served waits until an outdated (generation 1) client is answered from file version v or a newer
+// one. Reloads that start meanwhile are fed as well: one that had read the ClientConf before it was
+// replaced publishes the old one, and only the reload after it puts things right.
+func (d *c13pDrv) served(v int64) (*c13hViol, string) {
+	start := time.Now()
+	for {
+		if ok, h := d.probe(); h != "" {
+			return nil, h
+		} else if ok {
+			w, v2 := d.w, d.obs
+			d.w = nil
+			d.classes["fed-valid"] = true
+			if v2 > d.hi.Load() {
+				d.hi.Store(v2)
+			}
+			if d.min(v2) > 1 {
+				d.s.mayLag.Store(true)
+			}
+			if h := d.deliver(w, c13hSubnetsR(v2, d.min(v2), d.gen(v2))); h != "" {
+				return nil, h
+			}
+			if v2 > v {
+				v = v2
+			}
+		}
+		lo0 := d.lo.Load()
+		set, key, msg := d.s.registerGen("dual", 1)
+		if key != "" {
+			return d.s.judge("after a reload read file version "+fmt.Sprint(v), key, msg)
+		}
+		if set != c13hRefused {
+			if set < lo0 || set > d.hi.Load() {
+				return &c13hViol{"sighup:stale-set", fmt.Sprintf("after a reload read file version %d a registration was answered from version %d (version %d had already been served)", v, set, lo0)}, ""
+			}
+			d.raiseLo(set)
+			if set >= v {
+				// a valid version is served again, to outdated clients too
+				d.s.mayEmpty.Store(false)
+				d.s.mayLag.Store(false)
+			}
+		}
+		if d.lo.Load() >= v && !d.s.mayEmpty.Load() && !d.s.mayLag.Load() {
+			return nil, ""
+		}
+		if time.Since(start) > c13pPatience {
+			if set == c13hRefused && d.s.mayLag.Load() {
+				// clients of the newest generation tell whether the subnets were reloaded
+				if cs, ck, _ := d.s.registerGen("dual", d.gen(v)); ck == "" && cs >= v {
+					return &c13hViol{"sighup:outdated-clients-refused", fmt.Sprintf("file version %d (generations %d..%d only, ClientConf generation %d) was read by a reload and is served to generation-%d clients, but %v later (process idle, every reload that started meanwhile was fed as well) generation-1 clients are still refused with HTTP 500: the new ClientConf was never republished to the registrar, which therefore does not move outdated clients to the new generation. Registrar log tail: %q",
+						v, d.min(v), d.gen(v), d.genDisk, d.gen(v), c13pPatience, d.s.logs.tail(300))}, ""
+				}
+			}
+			return &c13hViol{"sighup:reload-never-completed", fmt.Sprintf("a reload read the valid file version %d completely, but %v later registrations are still answered from version %d (last answer: set %d, where %d means refused with HTTP 500). Registrar log tail: %q", v, c13pPatience, d.lo.Load(), set, c13hRefused, d.s.logs.tail(400))}, ""
+		}
+		time.Sleep(500 * time.Microsecond)
+	}
 }
 
 func (d *c13pDrv) act(kind string) (*c13hViol, string) {
@@ -360,14 +424,18 @@ func (d *c13pDrv) act(kind string) (*c13hViol, string) {
 	}
 	switch kind {
 	case "hup":
-		return nil, d.hup(false)
+		return nil, d.hup(false, false)
 	case "hupgen":
-		return nil, d.hup(true)
+		return nil, d.hup(true, false)
+	case "hupgenonly":
+		return nil, d.hup(true, true)
+	case "hupretire":
+		return nil, d.hup(false, true)
 	case "hup2":
-		if h := d.hup(false); h != "" {
+		if h := d.hup(false, false); h != "" {
 			return nil, h
 		}
-		return nil, d.hup(false)
+		return nil, d.hup(false, false)
 	case "feed":
 		return d.feed(false)
 	case "feedbad":
@@ -400,7 +468,7 @@ func (d *c13pDrv) finish() (*c13hViol, string) {
 			return v, h
 		}
 		if d.w == nil {
-			if d.lo.Load() == d.newest && !d.s.mayEmpty.Load() {
+			if d.lo.Load() == d.newest && !d.s.mayEmpty.Load() && !d.s.mayLag.Load() {
 				break
 			}
 			// the newest version was never read (its reload read garbage): the operator signals again
@@ -412,7 +480,7 @@ func (d *c13pDrv) finish() (*c13hViol, string) {
 			return v, h
 		}
 	}
-	if err := c13hWrite(d.s.subnetPath, c13hSubnetsG(d.newest, d.gen(d.newest))); err != nil {
+	if err := c13hWrite(d.s.subnetPath, c13hSubnetsR(d.newest, d.gen(d.newest), d.gen(d.newest))); err != nil {
 		return nil, err.Error()
 	}
 	os.Setenv("PHANTOM_SUBNET_LOCATION", d.s.subnetPath)
@@ -439,7 +507,7 @@ func TestVerif_C13_sighuppipe(t *testing.T) {
 		}
 		hist = c.Steps
 	} else {
-		rec.Require("sighup-while-reloading", "reload-for-sighup-that-arrived-during-a-reload", "request-during-reload", "old-client-during-generation-rollout", "generation-bump", "fed-valid", "fed-garbage", "fed-empty", "concurrent-requests")
+		rec.Require("sighup-while-reloading", "reload-for-sighup-that-arrived-during-a-reload", "request-during-reload", "old-client-during-generation-rollout", "generation-bump", "generations-retired", "fed-valid", "fed-garbage", "fed-empty", "concurrent-requests")
 		shard, _ := vh.Shard()
 		for _, x := range c13hDeBruijn(len(c13pKinds), vh.Pick(3, 4)) {
 			hist = append(hist, c13pKinds[x])
@@ -455,7 +523,7 @@ func TestVerif_C13_sighuppipe(t *testing.T) {
 
 	s := c13hStart(t)
 	// take over: all files fine, ClientConf generation 1, the environment points to the pipe
-	d := &c13pDrv{s: s, fifo: filepath.Join(s.dir, "phantom_subnets.pipe"), genOf: map[int64]uint32{}, genDisk: 1, classes: map[string]bool{}}
+	d := &c13pDrv{s: s, fifo: filepath.Join(s.dir, "phantom_subnets.pipe"), genOf: map[int64]uint32{}, genMin: map[int64]uint32{}, genDisk: s.curGen.Load(), curMin: s.curGen.Load(), base: s.curGen.Load(), classes: map[string]bool{}}
 	_ = os.Remove(d.fifo)
 	if err := syscall.Mkfifo(d.fifo, 0o600); err != nil {
 		t.Fatalf("harness problem: mkfifo: %v", err)
